@@ -35,6 +35,11 @@ CallsFrom(s) ==
              \cup {[op |-> "replace", id |-> i, p |-> p, q |-> q, side |-> "Sell"] : i \in Ids, p \in {Price, Price + 1}, q \in AmendQs}
         ELSE {})
 
+\* TLC (1.8) cannot write a lazily evaluated function to its disk queue unless fingerprinting has
+\* evaluated it; the fields hidden by VIEW are never fingerprinted, so they are forced here
+Force(g) == [g EXCEPT !.supplied = TLCEval(@), !.executed = TLCEval(@), !.back = TLCEval(@), !.disc = TLCEval(@),
+                      !.gone = TLCEval(@), !.issued = TLCEval(@)]
+
 Init == /\ sh = EmptyShared /\ sg = SeqGhostInit(EmptyMap)
         /\ chk = {} /\ lastkf = {} /\ hung = FALSE /\ hist = <<>>
 
@@ -44,7 +49,7 @@ Next ==
        LET run == RunCall(sh, c, Fuel)
            r   == IF run.hang THEN [t |-> "hang"] ELSE run.me.ret
            v   == CallVerdict(sh, c, r, run.sh, sg, [ret |-> r, sh |-> run.sh, pre |-> sh])
-       IN /\ sh' = run.sh /\ sg' = v.sg /\ chk' = v.bad /\ lastkf' = v.kf /\ hung' = run.hang
+       IN /\ sh' = run.sh /\ sg' = Force(v.sg) /\ chk' = v.bad /\ lastkf' = v.kf /\ hung' = run.hang
           /\ hist' = Append(hist, c)
 
 Spec == Init /\ [][Next]_vars
